@@ -42,6 +42,15 @@ def functions_of(path):
 def main():
     rows = []
     cache = {}
+    reach = {}      # function -> properties whose check verifies or executes it
+    for fn in sorted(os.listdir(os.path.join(VERIF, 'evidence'))):
+        if fn.endswith('.json'):
+            try:
+                cov = json.load(open(os.path.join(VERIF, 'evidence', fn)))['coverage']
+            except Exception:
+                continue
+            for q in list(cov.get('functions_under_contract', {})) + list(cov.get('functions_inlined', [])):
+                reach.setdefault(q, []).append(fn[:-5])
     with open(os.path.join(VERIF, 'properties.jsonl')) as f:
         props = [json.loads(l) for l in f if l.strip()]
     for p in props:
@@ -82,9 +91,11 @@ def main():
         n = sorted(q for q in anchored if q not in under and q not in inl)
         rows.append((pid, c, i, n))
     short = lambda q: q.replace('pyworkers.', '')
-    lines = ['| id | anchored functions verified against a contract | symbolically executed as callees | not reached by the check |', '|---|---|---|---|']
+    lines = ['| id | anchored functions verified against a contract | symbolically executed as callees | reached only by the check of another property | reached by no check |', '|---|---|---|---|---|']
     for pid, c, i, n in rows:
-        lines.append(f'| {pid} | {", ".join(map(short, c)) or "-"} | {", ".join(map(short, i)) or "-"} | {", ".join(map(short, n)) or "-"} |')
+        other = [f'{short(q)} ({",".join(reach[q][:3])})' for q in n if q in reach]
+        none = [short(q) for q in n if q not in reach]
+        lines.append(f'| {pid} | {", ".join(map(short, c)) or "-"} | {", ".join(map(short, i)) or "-"} | {", ".join(other) or "-"} | {", ".join(none) or "-"} |')
     table = '\n'.join(lines)
     print(table)
     if '--write' in sys.argv:
